@@ -17,8 +17,8 @@ type H = gocql.VerifC16Host
 
 // ---- addresses ----
 
-func v4(k int) net.IP   { return net.IP{10, 0, 0, byte(k)} }          // 4-byte form
-func v4in6(k int) net.IP { return net.IPv4(10, 0, 0, byte(k)) }       // 16-byte form of the same address
+func v4(k int) net.IP    { return net.IP{10, 0, 0, byte(k)} }   // 4-byte form
+func v4in6(k int) net.IP { return net.IPv4(10, 0, 0, byte(k)) } // 16-byte form of the same address
 func v6(k int) net.IP {
 	ip := make(net.IP, 16)
 	ip[0], ip[1] = 0xfd, 0x00
@@ -32,7 +32,13 @@ func ipCode(ip net.IP) (int64, bool) {
 		return 0, false
 	}
 	if x := ip.To4(); x != nil {
-		return int64(binary.BigEndian.Uint32(x)), true
+		if x[0] == 10 && x[1] == 0 && x[2] == 0 && x[3] != 0 {
+			return int64(x[3]), true // the pool 10.0.0.k
+		}
+		if v := binary.BigEndian.Uint32(x); v != 0 {
+			return 1<<33 + int64(v), true
+		}
+		return 0, true
 	}
 	if len(ip) != 16 {
 		panic(fmt.Sprintf("c16 harness: unexpected address %#v", []byte(ip)))
@@ -46,7 +52,7 @@ func ipCode(ip net.IP) (int64, bool) {
 				panic("c16 harness: unexpected v6 address " + ip.String())
 			}
 		}
-		return 1<<32 + int64(binary.BigEndian.Uint16(ip[14:])), true
+		return 1000 + int64(binary.BigEndian.Uint16(ip[14:])), true
 	}
 	panic("c16 harness: unexpected v6 address " + ip.String())
 }
@@ -54,9 +60,9 @@ func ipCode(ip net.IP) (int64, bool) {
 func ipTerm(ip net.IP) string {
 	k, ok := ipCode(ip)
 	if !ok {
-		return "None"
+		return "NA"
 	}
-	return hlib.Some(hlib.Z(k))
+	return "(A " + hlib.Z(k) + ")"
 }
 
 // keyCode: a key of hostIPToUUID (an address printed by String()) as the model's integer
@@ -75,12 +81,14 @@ func keyIP(k int64) net.IP {
 		return net.IPv4zero
 	case k == -1:
 		return net.IPv6unspecified
-	case k >= 1<<32:
-		return v6(int(k - 1<<32))
-	default:
+	case k >= 1<<33:
 		ip := make(net.IP, 4)
-		binary.BigEndian.PutUint32(ip, uint32(k))
+		binary.BigEndian.PutUint32(ip, uint32(k-1<<33))
 		return ip
+	case k >= 1000:
+		return v6(int(k - 1000))
+	default:
+		return v4(int(k))
 	}
 }
 
@@ -144,7 +152,7 @@ func nameCode(prefix, s string) int64 {
 
 func tokensTerm(ts []string) string {
 	if ts == nil {
-		return "None"
+		return "NT"
 	}
 	xs := make([]int64, len(ts))
 	for i, t := range ts {
@@ -154,7 +162,7 @@ func tokensTerm(ts []string) string {
 		}
 		xs[i] = v
 	}
-	return hlib.Some(hlib.ZListI(xs))
+	return "(TK " + hlib.ZListI(xs) + ")"
 }
 
 // hostTerm: a model hostinfo
@@ -171,34 +179,43 @@ func optHostTerm(h *gocql.HostInfo) string {
 	return hlib.Some(hostTerm(gocql.VerifC16View(h)))
 }
 
-// dumpTerm: (hosts sorted by id, addresses sorted by key, list ids)
-func dumpTerm(rg *gocql.VerifC16Ring) string {
-	hosts, ips, list := rg.Dump()
-	type kv struct {
-		k int64
-		s string
-	}
-	var hs []kv
-	for id, h := range hosts {
-		hs = append(hs, kv{idCode(id), hostTerm(gocql.VerifC16View(h))})
-	}
-	sort.Slice(hs, func(i, j int) bool { return hs[i].k < hs[j].k })
-	var is []kv
+type kvs struct {
+	k int64
+	s string
+}
+
+func ipsTerm(ips map[string]string) string {
+	var is []kvs
 	for k, id := range ips {
-		is = append(is, kv{keyCode(k), hlib.Z(idCode(id))})
+		is = append(is, kvs{keyCode(k), hlib.Z(idCode(id))})
 	}
 	sort.Slice(is, func(i, j int) bool { return is[i].k < is[j].k })
-	hitems := make([]string, len(hs))
-	for i, e := range hs {
-		hitems[i] = hlib.Pair(hlib.Z(e.k), e.s)
-	}
-	iitems := make([]string, len(is))
+	items := make([]string, len(is))
 	for i, e := range is {
-		iitems[i] = hlib.Pair(hlib.Z(e.k), e.s)
+		items[i] = "KV " + hlib.Z(e.k) + " " + e.s
 	}
+	return hlib.List(items)
+}
+
+func listTerm(list []*gocql.HostInfo) string {
 	lids := make([]int64, len(list))
 	for i, h := range list {
 		lids[i] = idCode(h.HostID())
 	}
-	return fmt.Sprintf("(%s, %s, %s)", hlib.List(hitems), hlib.List(iitems), hlib.ZListI(lids))
+	return hlib.ZListI(lids)
+}
+
+// dumpTerm: (hosts sorted by id, addresses sorted by key, list ids)
+func dumpTerm(rg *gocql.VerifC16Ring) string {
+	hosts, ips, list := rg.Dump()
+	var hs []kvs
+	for id, h := range hosts {
+		hs = append(hs, kvs{idCode(id), hostTerm(gocql.VerifC16View(h))})
+	}
+	sort.Slice(hs, func(i, j int) bool { return hs[i].k < hs[j].k })
+	hitems := make([]string, len(hs))
+	for i, e := range hs {
+		hitems[i] = "KH " + hlib.Z(e.k) + " " + e.s
+	}
+	return fmt.Sprintf("(DUMP %s %s %s)", hlib.List(hitems), ipsTerm(ips), listTerm(list))
 }
